@@ -256,11 +256,24 @@ func sortedKeys(obj map[string]*Cell) []string {
 	return keys
 }
 
+// look a member up in the prototype and bind it to v, so that calling it passes
+// v as the receiver. prototype cells are shared by every value in the process,
+// so the caller gets a bound copy and never the shared cell itself
+func (v *Value) protoMember(member Value) (*Cell, error) {
+	cell, err := v.Proto.GetMember(member)
+	if err != nil || cell == nil {
+		return cell, err
+	}
+	bound := cell.Value
+	bound.Binding = v
+	return NewCell(bound), nil
+}
+
 func (v *Value) GetMember(member Value) (*Cell, error) {
 	switch v.Tag {
 	case ValueArray:
 		if member.Tag != ValueNum && v.Proto != nil {
-			return v.Proto.GetMember(member)
+			return v.protoMember(member)
 		}
 		index, err := v.resolveIndex(member)
 		if err != nil {
@@ -283,12 +296,12 @@ func (v *Value) GetMember(member Value) (*Cell, error) {
 			return value, nil
 		}
 		if v.Proto != nil {
-			return v.Proto.GetMember(member)
+			return v.protoMember(member)
 		}
 		return nil, nil
 	case ValueStr:
 		if member.Tag != ValueNum {
-			return v.Proto.GetMember(member)
+			return v.protoMember(member)
 		}
 		index := int(*member.Num)
 		if index < 0 || index >= len(*v.Str) {
@@ -297,7 +310,7 @@ func (v *Value) GetMember(member Value) (*Cell, error) {
 		return NewCell(NewString(string((*v.Str)[index]))), nil
 	default:
 		if v.Proto != nil {
-			return v.Proto.GetMember(member)
+			return v.protoMember(member)
 		}
 		return nil, nil
 	}
